@@ -8,7 +8,7 @@ Nothing is executed: every function below manipulates abstract values only.
 import itertools
 import re
 from domains import (
-    Lin, band, bor, bxor, bnot, bdeps, bdep, bjoin, bits_const, bits_atom, bits_known,
+    Lin, opaque, shr_lin, band, bor, bxor, bnot, bdeps, bdep, bjoin, bits_const, bits_atom, bits_known,
     bits_all_deps, bits_dep_all, bits_carry_chain, bits_same,
 )
 import mir as M
@@ -473,6 +473,9 @@ class Interp:
         self.max_depth = max_depth
         self.atoms = {}  # name -> (ty, lo, hi)
         self.assume = assume or {}  # (atom, bit) -> 0/1  (trace partition assumptions)
+        self.top_ret_filter = None  # optional predicate on the outermost function's returned value: other returns are dropped
+        self.record_switch = False  # emit a "switch" event (scrutinee value) for every branch executed
+        self.kill_ret_variant = None  # optional: paths of the outermost function that return this enum variant are dropped
         self.split = split  # set of (atom, bit) on which to case-split lazily
         self.call_stack = []
         self.steps = 0
@@ -706,6 +709,13 @@ class Interp:
         if op in ("Sub", "SubO", "Lt", "Gt", "Le", "Ge") and a.kind == "int" and b.kind == "int" and self.record_arith:
             self.events.append(Event("arith", self.call_stack[-1] if self.call_stack else "?", -1, self.cur_line, op=op, a=a, b=b, stack=tuple(self.call_stack)))
         if op in ("Div", "Rem") and r.kind == "int":
+            if r.aff is None and a.kind == "int" and b.kind == "int" and a.aff is not None and b.aff is not None and not r.is_const():
+                # an uninterpreted truncating quotient / remainder of two closed forms
+                note = self.div_notes.get(r.vid)
+                r = IntV(r.ty, r.bits, r.lo, r.hi, Lin(0, ((opaque("div" if op == "Div" else "rem", a.aff, b.aff), 1),)), r.exact, r.lineage,
+                         r.pred, vid=r.vid, full=r.full, excl=r.excl)
+                if note is not None:
+                    self.div_notes[r.vid] = note
             self.div_vids.add(r.vid)
         return r
 
@@ -746,6 +756,9 @@ class Interp:
                     aff = a.aff.scale(b.lo)
                 elif b.aff is not None and a.is_const():
                     aff = b.aff.scale(a.lo)
+                elif a.aff is not None and b.aff is not None:
+                    # an uninterpreted product of two closed forms (compared structurally by the value rules)
+                    aff = Lin(0, ((opaque("mul", a.aff, b.aff), 1),))
             if aff is not None and st is not None and st.afacts:
                 fact = st.afacts.get(aff.key())
                 if fact is not None and max(lo, fact[0]) <= min(hi, fact[1]):
@@ -761,6 +774,16 @@ class Interp:
                 bits = b.bits
             else:
                 bits = bits_carry_chain(a.bits, b.bits, w) if base != "Mul" else bits_dep_all(w, a.deps() | b.deps())
+                if base == "Mul":
+                    # a 0/1 value times a constant mask, or any value times a power of two: exact in the bit domain
+                    for x_, c_ in ((a, b), (b, a)):
+                        if c_.is_const() and c_.lo >= 0 and not x_.is_const():
+                            c = c_.lo
+                            if x_.lo >= 0 and x_.hi <= 1:
+                                bits = tuple((x_.bits[0] if (c >> i_) & 1 else 0) for i_ in range(w))
+                            elif c > 0 and c & (c - 1) == 0:
+                                k_ = c.bit_length() - 1
+                                bits = ((0,) * k_ + x_.bits)[:w]
             if op.endswith("O"):
                 # value on the non-overflowing path (the only path that continues after the Assert)
                 rlo, rhi = max(lo, tlo), min(hi, thi)
@@ -805,9 +828,22 @@ class Interp:
             aff = None
             lo, hi = tlo, thi
             ex = False
+            if op == "BitAnd" and a.signed:
+                # two's complement: x & (2^k - 1) = x mod 2^k also for negative x
+                for x, y in ((a, b), (b, a)):
+                    if y.is_const() and y.lo > 0 and (y.lo & (y.lo + 1)) == 0 and x.aff is not None and not x.is_const():
+                        return IntV(ty, bits, 0, y.lo, x.aff.mod(y.lo + 1), False, lin)
             if not a.signed and a.lo >= 0 and b.lo >= 0:
                 if op == "BitAnd":
                     lo, hi = 0, min(a.hi, b.hi)
+                    for x, y in ((a, b), (b, a)):
+                        if y.is_const() and y.lo > 0 and x.aff is not None and not x.is_const():
+                            low0 = (y.lo & -y.lo).bit_length() - 1          # number of trailing zero bits of the mask
+                            top = y.lo | ((1 << low0) - 1)
+                            if low0 > 0 and (top & (top + 1)) == 0 and x.hi <= top:
+                                # mask = all bits from low0 up to the top of x's range: x & mask = x - (x mod 2^low0)
+                                aff = x.aff.sub(x.aff.mod(1 << low0))
+                                hi = min(x.hi, y.lo)
                     for x, y in ((a, b), (b, a)):
                         if y.is_const() and (y.lo & (y.lo + 1)) == 0:  # mask 2^k-1
                             m = y.lo + 1
@@ -851,7 +887,8 @@ class Interp:
                     return IntV(ty, bits, tlo, thi, aff, False, lin)
                 fill = a.bits[w - 1] if a.signed else 0
                 bits = a.bits[k:] + (fill,) * k
-                return IntV(ty, bits, a.lo >> k, a.hi >> k, None, a.exact, lin)
+                saff = shr_lin(a.aff, k) if (a.aff is not None and a.lo >= 0) else None
+                return IntV(ty, bits, a.lo >> k, a.hi >> k, saff, a.exact, lin)
             d = a.deps() | b.deps()
             r = IntV.top(ty, d)
             if op == "Shr" and not a.signed:
@@ -1243,7 +1280,11 @@ class Interp:
         else:
             r = True
         if r and rel:
-            st.corr = st.corr | {frozenset((x.vid, y.vid))}
+            # the comparison relates everything the two sides were computed from (x = MAX - counter compared with size
+            # also relates counter and size): no later operation on these values may claim independent operands
+            lx = list(x.lineage)[:16]
+            ly = list(y.lineage)[:16]
+            st.corr = st.corr | {frozenset((p_, q_)) for p_ in lx for q_ in ly if p_ != q_} | {frozenset((x.vid, y.vid))}
             if x.aff is not None and y.aff is not None:
                 fact = {"Lt": ("lt", x.aff.key(), y.aff.key()), "Le": ("le", x.aff.key(), y.aff.key()),
                         "Gt": ("lt", y.aff.key(), x.aff.key()), "Ge": ("le", y.aff.key(), x.aff.key())}.get(op)
@@ -1325,6 +1366,11 @@ class Interp:
             outs = self.exec_block(fn, cfg, fi, b, s)
             for (succ, s2) in outs:
                 if succ == "return":
+                    if self.top_ret_filter is not None and len(self.call_stack) == 1:
+                        # the caller of the analysis looks at one outcome of the outermost function only (e.g. its Ok returns)
+                        rv_ = s2.frames[fi].get(0, UNIT)
+                        if not self.top_ret_filter(rv_):
+                            continue
                     ret_state = s2 if ret_state is None else self.join_states(ret_state, s2, fi)
                     continue
                 if succ not in in_states:
@@ -1391,6 +1437,11 @@ class Interp:
                 except Unsupported as e:
                     self.notes.append(f"{fn['name']}@bb{b}: {e}")
                     val = TopV(place["ty"])
+                if self.kill_ret_variant is not None and len(self.call_stack) == 1 and place["l"] == 0 and not place["p"] \
+                        and val.kind == "enum" and val.variant == self.kill_ret_variant:
+                    # the caller of the analysis asked for the other outcome of the outermost function only:
+                    # a path that builds this variant as the return value is not followed
+                    return []
                 try:
                     self.write_loc(st, self.resolve(st, fi, place), val)
                 except Unsupported as e:
@@ -1428,6 +1479,8 @@ class Interp:
         return []
 
     def do_switch(self, fn, b, st, d, arms, otherwise):
+        if self.record_switch:
+            self.event("switch", fn, b, 0, val=d, arms=list(arms), otherwise=otherwise)
         if d.kind == "int":
             bit0 = d.bits[0] if d.w == 1 else None
             if bit0 is not None:
